@@ -4,6 +4,7 @@
 
 mod abi;
 mod alloc;
+mod conformance;
 mod engine;
 mod exec;
 mod kernel;
@@ -30,6 +31,7 @@ fn arg<T: std::str::FromStr>(args: &[String], name: &str) -> Option<T> {
 
 fn main() {
     let args: Vec<String> = std::env::args().collect();
+    alloc::init_debug();
     segv::install_handler();
     segv::register_stack();
     run::install_panic_hook();
@@ -62,6 +64,29 @@ fn main() {
             println!("done, {bad} problems");
         }
         Some("worker") => orch::worker(&args[2..]),
+        Some("hashes") => {
+            // Per-run fingerprints, for the determinism proof: index, abstract
+            // trace hash, number of draws, hash of the full event log, classes.
+            let scenario = &args[2];
+            let seed: u64 = arg(&args, "--seed").unwrap_or(1);
+            let from: u64 = arg(&args, "--from").unwrap_or(0);
+            let count: u64 = arg(&args, "--count").unwrap_or(100);
+            let stride: u64 = arg(&args, "--stride").unwrap_or(1);
+            let mut i = from;
+            for _ in 0..count {
+                let o = run::run(scenario, run::Mode::Seed(tape::mix(seed, scenario, i)), true);
+                let mut h: u64 = 0xcbf2_9ce4_8422_2325;
+                for l in &o.lines {
+                    for b in l.bytes() {
+                        h = (h ^ u64::from(b)).wrapping_mul(0x100_0000_01B3);
+                    }
+                    h = (h ^ 0xff).wrapping_mul(0x100_0000_01B3);
+                }
+                let classes: Vec<&str> = o.violations.iter().map(|v| v.class.as_str()).collect();
+                println!("{i} {:016x} {} {:016x} {}", o.hash, o.draws, h, classes.join(","));
+                i += stride;
+            }
+        }
         Some("tape-run") => {
             let scenario = &args[2];
             let t: Vec<u32> = args
@@ -90,6 +115,16 @@ fn main() {
             };
             let log = !args.iter().any(|a| a == "--quiet");
             println!("replaying {} ({} draws) for {} class {}", r.scenario, r.tape.len(), r.property, r.class);
+            if r.class == "hang" {
+                // The violation is "never finishes": a watchdog thread decides.
+                let (prop, path) = (r.property.clone(), path.clone());
+                std::thread::spawn(move || {
+                    std::thread::sleep(std::time::Duration::from_secs(10));
+                    println!("still running after 10 s");
+                    println!("VIOLATION property={prop} replay={path}");
+                    std::process::exit(1);
+                });
+            }
             let classes = orch::tape_run(&r.scenario, r.tape, log);
             if classes.iter().any(|c| *c == r.class) {
                 println!("VIOLATION property={} replay={path}", r.property);
@@ -97,6 +132,13 @@ fn main() {
             }
             println!("not reproduced");
         }
+        Some("conformance") => match conformance::run() {
+            Some(0) | None => {}
+            Some(n) => {
+                println!("{n} script(s) differ between the real kernel and the stub");
+                std::process::exit(1);
+            }
+        },
         Some("check") => {
             let id = args.get(2).expect("property id");
             let tier = arg::<String>(&args, "--tier")
